@@ -2,6 +2,7 @@ package main
 
 import (
 	"fmt"
+	"go/ast"
 	"go/token"
 	"go/types"
 	"sort"
@@ -316,29 +317,7 @@ func (e *Enc) block(b *ssa.BasicBlock) {
 	// loop exit assertions: on every edge that leaves a loop (normal exit or break, not a return), with the
 	// state at the end of the loop-side block
 	for i, p := range inPreds {
-		for _, xl := range e.loopList {
-			if xl.lc == nil || len(xl.lc.Exits) == 0 || !xl.body[p] || xl.body[b] {
-				continue
-			}
-			saveR, saveH := e.curR, e.cur
-			e.curR, e.cur = inEdges[i], e.hout[p]
-			ctx := e.baseCtx()
-			ctx.heap = e.hout[p]
-			ctx.at = p
-			ctx.atEnd = true
-			ctx.params = map[string]bool{}
-			for _, pa := range e.fn.Params {
-				ctx.params[pa.Name()] = true
-			}
-			for j, ex := range xl.lc.Exits {
-				t, err := ctx.EvalBool(ex.E)
-				if err != nil {
-					e.fatal("loop %d exit: %v", xl.ordinal, err)
-				}
-				e.assertOb(fmt.Sprintf("loop%d/exit.b%d#%d", xl.ordinal, p.Index, j+1), t, "at loop exit: "+ex.Src, token.NoPos)
-			}
-			e.curR, e.cur = saveR, saveH
-		}
+		e.assertLoopExits(p, b, inEdges[i], e.hout[p])
 	}
 
 	li := e.loops[b]
@@ -462,6 +441,8 @@ func (e *Enc) edge(from, to *ssa.BasicBlock, cond Term) {
 		li := e.loops[to]
 		e.backOrd[to]++
 		e.assertInvariants(li, from, et, e.cur, fmt.Sprintf("keep.e%d", e.backOrd[to]))
+		// a back edge of an outer loop may leave an inner loop
+		e.assertLoopExits(from, to, et, e.cur)
 		return
 	}
 	e.edges[[2]int{from.Index, to.Index}] = et
@@ -558,6 +539,15 @@ func (e *Enc) assertInvariants(li *loopInfo, from *ssa.BasicBlock, edgeCond Term
 			}
 			e.assertOb(fmt.Sprintf("loop%d/%s#%d", li.ordinal, kind, j+1), t, "invariant "+inv.Src, token.NoPos)
 		}
+		if kind == "init" {
+			for j, en := range li.lc.Entries {
+				t, err := ctx.EvalBool(en.E)
+				if err != nil {
+					e.fatal("loop %d entry: %v", li.ordinal, err)
+				}
+				e.assertOb(fmt.Sprintf("loop%d/entry.b%d#%d", li.ordinal, from.Index, j+1), t, "at loop entry: "+en.Src, token.NoPos)
+			}
+		}
 	}
 	e.curR, e.cur = saveR, saveH
 }
@@ -609,28 +599,7 @@ func (e *Enc) ret(r *ssa.Return) {
 	if len(names) == 1 {
 		ctx.vars["result"] = ctx.vars[names[0]]
 	}
-	if len(e.fc.AtReturns) > 0 {
-		k := e.returnOrdinal(r)
-		for i := range e.fc.AtReturns {
-			ar := &e.fc.AtReturns[i]
-			if ar.Ord != k {
-				continue
-			}
-			ar.Used = true
-			lc := ctx.child()
-			lc.at = r.Block()
-			lc.atEnd = true
-			lc.params = map[string]bool{}
-			for _, p := range e.fn.Params {
-				lc.params[p.Name()] = true
-			}
-			t, err := lc.EvalBool(ar.C.E)
-			if err != nil {
-				e.fatal("at return %d: %v", k, err)
-			}
-			e.assertOb(fmt.Sprintf("at@return#%d.%d", k, i+1), t, fmt.Sprintf("assertion at return %d: %s", k, ar.C.Src), posOf(r))
-		}
-	}
+	e.atReturnClauses(r, false, ctx)
 	for j, en := range e.fc.Ensures {
 		t, err := ctx.EvalBool(en.E)
 		if err != nil {
@@ -928,4 +897,168 @@ func (e *Enc) returnOrdinal(r *ssa.Return) int {
 		}
 	}
 	return e.retOrder[r]
+}
+
+// assertLoopExits checks the exit clauses of every loop that the edge p -> b leaves (normal exit or break,
+// not a return), with the state at the end of the loop-side block.
+func (e *Enc) assertLoopExits(p, b *ssa.BasicBlock, edge Term, heap *HeapState) {
+	for _, xl := range e.loopList {
+		if xl.lc == nil || len(xl.lc.Exits) == 0 {
+			continue
+		}
+		// the loop's region: its CFG body plus the code written inside the loop statement that never loops
+		// back (the way to a return, a panic or a break); an edge that leaves the region is an exit, a path
+		// that ends inside it is a return
+		reg := e.loopRegion(xl)
+		if !reg[p] || reg[b] {
+			continue
+		}
+		saveR, saveH := e.curR, e.cur
+		e.curR, e.cur = edge, heap
+		ctx := e.baseCtx()
+		ctx.heap = heap
+		ctx.at = p
+		ctx.atEnd = true
+		ctx.params = map[string]bool{}
+		for _, pa := range e.fn.Params {
+			ctx.params[pa.Name()] = true
+		}
+		for j, ex := range xl.lc.Exits {
+			t, err := ctx.EvalBool(ex.E)
+			if err != nil {
+				e.fatal("loop %d exit: %v", xl.ordinal, err)
+			}
+			e.assertOb(fmt.Sprintf("loop%d/exit.b%d#%d", xl.ordinal, p.Index, j+1), t, "at loop exit: "+ex.Src, token.NoPos)
+		}
+		e.curR, e.cur = saveR, saveH
+	}
+}
+
+// loopSyntax finds the loop statement of a CFG loop: the innermost for/range statement of the function
+// whose source range contains every positioned instruction of the loop's blocks.
+func (e *Enc) loopSyntax(li *loopInfo) ast.Node {
+	if li.synDone {
+		return li.syn
+	}
+	li.synDone = true
+	root := e.fn.Syntax()
+	if root == nil {
+		return nil
+	}
+	var lo, hi token.Pos
+	for b := range li.body {
+		for _, in := range b.Instrs {
+			if _, isPhi := in.(*ssa.Phi); isPhi {
+				continue
+			}
+			p := in.Pos()
+			if !p.IsValid() {
+				continue
+			}
+			if !lo.IsValid() || p < lo {
+				lo = p
+			}
+			if p > hi {
+				hi = p
+			}
+		}
+	}
+	if !lo.IsValid() {
+		return nil
+	}
+	var best ast.Node
+	ast.Inspect(root, func(n ast.Node) bool {
+		if n == nil {
+			return false
+		}
+		if fl, ok := n.(*ast.FuncLit); ok && ast.Node(fl) != root {
+			return false
+		}
+		switch n.(type) {
+		case *ast.ForStmt, *ast.RangeStmt:
+			if n.Pos() <= lo && hi < n.End() {
+				best = n // inner loops are visited later and overwrite
+			}
+		}
+		return true
+	})
+	li.syn = best
+	return best
+}
+
+// insideLoopText: block b (outside the CFG loop) holds code written inside the loop statement.
+func (e *Enc) insideLoopText(li *loopInfo, b *ssa.BasicBlock) bool {
+	syn := e.loopSyntax(li)
+	if syn == nil {
+		return false
+	}
+	for _, in := range b.Instrs {
+		if _, isPhi := in.(*ssa.Phi); isPhi {
+			continue
+		}
+		if p := in.Pos(); p.IsValid() {
+			return syn.Pos() <= p && p < syn.End()
+		}
+	}
+	return false
+}
+
+func (e *Enc) loopRegion(li *loopInfo) map[*ssa.BasicBlock]bool {
+	if li.region != nil {
+		return li.region
+	}
+	reg := map[*ssa.BasicBlock]bool{}
+	var work []*ssa.BasicBlock
+	for b := range li.body {
+		reg[b] = true
+		work = append(work, b)
+	}
+	for len(work) > 0 {
+		x := work[len(work)-1]
+		work = work[:len(work)-1]
+		for _, s := range x.Succs {
+			if !reg[s] && e.insideLoopText(li, s) {
+				reg[s] = true
+				work = append(work, s)
+			}
+		}
+	}
+	li.region = reg
+	return reg
+}
+
+// atReturnClauses checks the `at return k` assertions of return statement r: the plain ones at the return
+// itself (ctx carries the result names), the before-defers ones where the deferred calls are about to run.
+func (e *Enc) atReturnClauses(r *ssa.Return, pre bool, ctx *SpecCtx) {
+	if len(e.fc.AtReturns) == 0 {
+		return
+	}
+	if ctx == nil {
+		ctx = e.baseCtx()
+		ctx.heap = e.cur
+	}
+	k := e.returnOrdinal(r)
+	for i := range e.fc.AtReturns {
+		ar := &e.fc.AtReturns[i]
+		if ar.Ord != k || ar.Pre != pre {
+			continue
+		}
+		ar.Used = true
+		lc := ctx.child()
+		lc.at = r.Block()
+		lc.atEnd = !pre
+		lc.params = map[string]bool{}
+		for _, p := range e.fn.Params {
+			lc.params[p.Name()] = true
+		}
+		t, err := lc.EvalBool(ar.C.E)
+		if err != nil && strings.Contains(err.Error(), "unknown identifier") {
+			e.assertOb(fmt.Sprintf("at@return#%d.%d", k, i+1), tFalse, fmt.Sprintf("assertion at return %d cannot be stated there (%v): %s", k, err, ar.C.Src), posOf(r))
+			continue
+		}
+		if err != nil {
+			e.fatal("at return %d: %v", k, err)
+		}
+		e.assertOb(fmt.Sprintf("at@return#%d.%d", k, i+1), t, fmt.Sprintf("assertion at return %d: %s", k, ar.C.Src), posOf(r))
+	}
 }
